@@ -308,7 +308,35 @@ var rFlattenSep = &Rule{
 				c.Fail("hintdetail."+n, token.NoPos, "function not found")
 				continue
 			}
-			sx.EachInstr(fn, func(in ssa.Instruction) {
+			// the joining may live in a helper that receives the list
+			worker := fn
+			for _, ret := range sx.Returns(fn) {
+				if call, ok := ret.Results[0].(*ssa.Call); ok {
+					if f := sx.Callee(call); f != nil && c.P.InModule(f) && f.Blocks != nil && len(call.Call.Args) == 1 {
+						if inner, ok := call.Call.Args[0].(*ssa.Call); ok && sx.Callee(inner) != nil && strings.HasPrefix(sx.Callee(inner).Name(), "GetAll") {
+							worker = f
+						}
+					}
+				}
+			}
+			// form 1: strings.Join(list, sep)
+			joined := ""
+			isJoin := false
+			sx.EachInstr(worker, func(in ssa.Instruction) {
+				if call, ok := in.(*ssa.Call); ok {
+					if f := sx.Callee(call); f != nil && f.Name() == "Join" && load.FnPkg(f) != nil && load.FnPkg(f).Path() == "strings" && len(call.Call.Args) == 2 {
+						if sp, ok := sx.ConstString(call.Call.Args[1]); ok {
+							isJoin, joined = true, sp
+						}
+					}
+				}
+			})
+			if isJoin {
+				c.Check(joined == "\n--\n", "hintdetail."+n+": separator", fn.Pos(), "strings.Join with \"\\n--\\n\"", fmt.Sprintf("the list is joined with %q, not the documented \"\\n--\\n\"", joined))
+				continue
+			}
+			// form 2: a loop writing a separator variable that is "" first and the separator afterwards
+			sx.EachInstr(worker, func(in ssa.Instruction) {
 				if ph, ok := in.(*ssa.Phi); ok {
 					for _, e := range ph.Edges {
 						if s, ok := sx.ConstString(e); ok {
